@@ -300,6 +300,10 @@ func (c *compositeMatcher) YAML(b []byte) ([]byte, []match.MatcherError) {
 }
 
 func decodeLit(s string) any {
+	if s == `"@unencodable"` {
+		// a placeholder no encoder accepts (a func passed by mistake: `Placeholder(time.Now)`)
+		return func() {}
+	}
 	var v any
 	if err := json.Unmarshal([]byte(s), &v); err != nil {
 		panic("bad literal " + s)
